@@ -24,6 +24,11 @@ pub trait Family: Sync + Send {
     fn chunk_hint(&self) -> Option<u64> {
         None
     }
+    /// watchdog for one chunk / for one case in a fresh process (seconds); a case that exceeds
+    /// the latter on its own is reported as a hang
+    fn watchdogs(&self) -> (u64, u64) {
+        (900, 20)
+    }
 }
 
 pub type FamilyMaker = fn(Tier) -> Vec<Box<dyn Family>>;
@@ -210,13 +215,14 @@ pub fn parent(prop: &'static str, tier: Tier, maker: FamilyMaker, rep: &mut Repo
                         break;
                     }
                     let (fi, a, b) = work[i];
-                    match run_chunk(prop, tier, fi, a, b, Duration::from_secs(900)) {
+                    let (wd_chunk, wd_single) = fams[fi].watchdogs();
+                    match run_chunk(prop, tier, fi, a, b, Duration::from_secs(wd_chunk)) {
                         ChunkResult::Done(acc) => repm.lock().unwrap().absorb(acc),
                         ChunkResult::Died(w) => {
                             if b - a > 1 {
                                 eprintln!("  worker for family {} [{a},{b}) died: {w}; bisecting", fams[fi].name());
                             }
-                            bisect(prop, tier, fi, fams[fi].as_ref(), a, b, &w, &repm, Duration::from_secs(20))
+                            bisect(prop, tier, fi, fams[fi].as_ref(), a, b, &w, &repm, Duration::from_secs(wd_single))
                         }
                     }
                 });
